@@ -636,24 +636,33 @@ Qed.
 Lemma pexec_delall : forall konsole t, t_plcs (pexec konsole t [KDel DelAll]) = [].
 Proof. reflexivity. Qed.
 
+Lemma bump2_ne : forall s, ((s + 1) mod 3 + 1) mod 3 <> s.
+Proof.
+  intros s E. assert (B : (s + 1) mod 3 < 3) by (apply Nat.mod_upper_bound; lia).
+  assert (B2 : ((s + 1) mod 3 + 1) mod 3 < 3) by (apply Nat.mod_upper_bound; lia).
+  destruct s as [|[|[|s]]]; try (vm_compute in E; discriminate). lia.
+Qed.
+
 (** [inner]: what urwid's own _start / _stop write (no image) *)
-Lemma cleared_on_start_stop_clear_lemma : forall konsole inner s t,
+Lemma cleared_on_start_stop_clear_lemma : forall konsole inner bc s t,
   forallb no_place inner = true ->
   t_plcs (pexec konsole t (fst (start_stream true inner s))) = []
-  /\ t_plcs (pexec konsole t (fst (stop_stream true inner s))) = []
+  /\ t_plcs (pexec konsole t (fst (stop_stream true bc inner s))) = []
   /\ t_plcs (pexec konsole t (fst (clear_stream true s))) = []
   /\ s_cdis (snd (start_stream true inner s)) <> s_cdis s
-  /\ s_cdis (snd (stop_stream true inner s)) <> s_cdis s
+  /\ s_cdis (snd (stop_stream true bc inner s)) <> s_cdis s
   /\ s_cdis (snd (clear_stream true s)) <> s_cdis s.
 Proof.
-  intros konsole inner s t Hn. unfold start_stream, stop_stream, clear_stream, clear_images_all. simpl.
-  repeat split; try apply bump_ne.
+  intros konsole inner bc s t Hn. unfold start_stream, stop_stream, clear_stream, clear_images_all.
+  destruct bc; simpl; repeat split; try apply bump_ne; try apply bump2_ne.
+  - rewrite pexec_app. reflexivity.
+  - apply pexec_no_place_empty; [exact Hn|reflexivity].
   - rewrite pexec_app. reflexivity.
   - apply pexec_no_place_empty; [exact Hn|reflexivity].
 Qed.
 
 (** without kitty support nothing is written (the terminal shows no such image) *)
-Lemma unsupported_silent : forall inner s,
-  fst (start_stream false inner s) = inner /\ fst (stop_stream false inner s) = inner
+Lemma unsupported_silent : forall inner bc s,
+  fst (start_stream false inner s) = inner /\ fst (stop_stream false bc inner s) = inner
   /\ fst (clear_stream false s) = [].
-Proof. intros. unfold start_stream, stop_stream, clear_stream, clear_images_all. simpl. rewrite app_nil_r. auto. Qed.
+Proof. intros. unfold start_stream, stop_stream, clear_stream, clear_images_all. destruct bc; simpl; rewrite app_nil_r; auto. Qed.
